@@ -189,9 +189,10 @@ def r07c(P, R):
         w = set(w)
         m, leaf = rec["m"], rec["leaf"]
         if not m:
-            if rec["fuzzy"] or (rec["fns"] & unreached):
+            if rec["fuzzy"] or rec.get("unknown") or (rec["fns"] & unreached):
                 R.undecided("R07-c", "fill:" + key, "the source of `%s` is not decided (%s)" % (key, "filled in a function that is not reached"
-                                                                                                  if rec["fns"] & unreached else "imprecise value"))
+                                                                                                  if rec["fns"] & unreached else
+                                                                                                  "it is built from a local whose origin is not followed"))
             else:
                 R.violated("R07-c", "fill:" + key, "AST field `%s` is built from no grammar part at all; the GraphQL grammar assigns it %s" % (key, sorted(w)))
             continue
@@ -504,34 +505,17 @@ def _pos_conversion(P, tp):
             e = e["e"]
         return e
     comps, tuples = {}, set()
-    calls = [c for c in tp.walk() if c.get("k") == "Call" and (call_name(c) or "").endswith("base::Pos::new")]
-    if not calls:
-        # the conversion lives in a helper that receives `pair.line_col()` whole (`Pos::from_one_based(self.line_col())`)
-        for c in tp.walk():
-            g = P.fns.get(call_name(c) or "") if c.get("k") == "Call" else None
-            if g is not None and len(c["args"]) == 1 and len(g.params) == 1 and strip(c["args"][0]).get("k") == "MethodCall" \
-                    and strip(c["args"][0])["method"] == "line_col":
-                pat = g.params[0]
-                if pat.get("k") == "Tuple" and len(pat["ps"]) == 2 and all(p.get("k") == "Binding" for p in pat["ps"]):
-                    comps[pat["ps"][0]["local"]], comps[pat["ps"][1]["local"]] = 0, 1
-                elif pat.get("k") == "Binding":
-                    tuples.add(pat["local"])
-                else:
-                    continue
-                tp = g
-                calls = [x for x in tp.walk() if x.get("k") == "Call" and (call_name(x) or "").endswith("base::Pos::new")]
-                break
-    if len(calls) != 1 or len(calls[0]["args"]) != 2:
-        return "unknown", "to_pos does not build its result with one Pos::new(line, column) call"
-    for n in tp.walk():
-        if n.get("k") == "Let" and "init" in n:
-            init = strip(n["init"])
-            if init.get("k") == "MethodCall" and init["method"] == "line_col":
-                pat = n["pat"]
-                if pat.get("k") == "Tuple" and len(pat["ps"]) == 2 and all(p.get("k") == "Binding" for p in pat["ps"]):
-                    comps[pat["ps"][0]["local"]], comps[pat["ps"][1]["local"]] = 0, 1
-                elif pat.get("k") == "Binding":
-                    tuples.add(pat["local"])
+
+    def scan_lets(fn):
+        for n in fn.walk():
+            if n.get("k") == "Let" and "init" in n:
+                init = strip(n["init"])
+                if init.get("k") == "MethodCall" and init["method"] == "line_col":
+                    pat = n["pat"]
+                    if pat.get("k") == "Tuple" and len(pat["ps"]) == 2 and all(p.get("k") == "Binding" for p in pat["ps"]):
+                        comps[pat["ps"][0]["local"]], comps[pat["ps"][1]["local"]] = 0, 1
+                    elif pat.get("k") == "Binding":
+                        tuples.add(pat["local"])
 
     def comp(e):
         e = strip(e)
@@ -542,6 +526,35 @@ def _pos_conversion(P, tp):
             if (b.get("k") == "Path" and b.get("local") in tuples) or (b.get("k") == "MethodCall" and b["method"] == "line_col"):
                 return int(e["field"])
         return None
+    scan_lets(tp)
+    calls = [c for c in tp.walk() if c.get("k") == "Call" and (call_name(c) or "").endswith("base::Pos::new")]
+    if not calls:
+        # the conversion lives in a helper (`Pos::from_one_based(self.line_col())`, `Pos::from_one_based(line, column)`): its parameters
+        # stand for the components (or the whole result) of line_col() the call passes
+        for c in tp.walk():
+            g = P.fns.get(call_name(c) or "") if c.get("k") == "Call" else None
+            if g is None or len(c["args"]) != len(g.params) or not (g.sig_output or "").endswith("base::Pos"):
+                continue
+            bound = False
+            for pat, a in zip(g.params, c["args"]):
+                whole = strip(a).get("k") == "MethodCall" and strip(a)["method"] == "line_col"
+                whole = whole or (strip(a).get("k") == "Path" and strip(a).get("local") in tuples)
+                if whole and pat.get("k") == "Tuple" and len(pat["ps"]) == 2 and all(p.get("k") == "Binding" for p in pat["ps"]):
+                    comps[pat["ps"][0]["local"]], comps[pat["ps"][1]["local"]] = 0, 1
+                    bound = True
+                elif whole and pat.get("k") == "Binding":
+                    tuples.add(pat["local"])
+                    bound = True
+                elif pat.get("k") == "Binding" and comp(a) is not None:
+                    comps[pat["local"]] = comp(a)
+                    bound = True
+            if bound:
+                tp = g
+                scan_lets(tp)
+                calls = [x for x in tp.walk() if x.get("k") == "Call" and (call_name(x) or "").endswith("base::Pos::new")]
+                break
+    if len(calls) != 1 or len(calls[0]["args"]) != 2:
+        return "unknown", "to_pos does not build its result with one Pos::new(line, column) call"
 
     def arg(e):
         e = strip(e)
@@ -591,7 +604,7 @@ def r07e(P, R):
             key = "position-source:" + adt.split("::")[-1]
             if rec["m"]:
                 R.holds("R07-e", key, "position taken from a pair (%s)" % ",".join(sorted(rec["m"])[:3]))
-            elif rec["fuzzy"] or (rec["fns"] & unreached):
+            elif rec["fuzzy"] or rec.get("unknown") or (rec["fns"] & unreached):
                 R.undecided("R07-e", key, "the source of %s.%s is not decided (filled in a function the interpreter does not reach)" % (adt, fld))
             else:
                 R.violated("R07-e", key, "%s.%s is not derived from a parsed pair" % (adt, fld))
